@@ -5,7 +5,7 @@ import os
 import numpy as np
 
 from .. import attach, gen, poollog
-from ..runner import quiet
+from ..runner import quiet, guarded
 from .c11 import gen_row_opts, gen_rows
 
 PROP = 'C12'
@@ -235,16 +235,16 @@ def run(sh):
     for ci, (shape, ax) in enumerate(mine):
         # option structures are assigned round-robin so that every (axis, structure) class is visited in every run
         kinds = ['dict', '2d', 'none'] if ax == (0, 1) else ['1d', 'dict', '2d', 'none']
-        run_one(sh, make_case(rng, shape=shape, axis=ax, kind=kinds[(ci + sh.shard + sh.seed) % len(kinds)]), 'grid')
+        guarded(sh, run_one, sh, make_case(rng, shape=shape, axis=ax, kind=kinds[(ci + sh.shard + sh.seed) % len(kinds)]), 'grid')
     # every (axis, option structure) class exactly once per run, whatever the seed (spread over the shards)
     classes = [(ax, k) for ax in (0, 1) for k in ('dict', 'none', '1d', '2d')] + [((0, 1), k) for k in ('dict', 'none', '2d')]
     for i, (ax, k) in enumerate(classes):
         if i % sh.nshards == sh.shard:
             shape = [(2, 3), (3, 2), (2, 2), (1, 3), (3, 1)][(i + sh.seed) % 5]
-            run_one(sh, make_case(rng, shape=shape, axis=ax, kind=k), 'class_cover')
+            guarded(sh, run_one, sh, make_case(rng, shape=shape, axis=ax, kind=k), 'class_cover')
     K = 2 if sh.tier == 'quick' else 50
     for it in range(K):
-        run_one(sh, make_case(rng))
+        guarded(sh, run_one, sh, make_case(rng))
 
 
 def replay(sh, driver, case):
